@@ -5,6 +5,7 @@ from itertools import islice, chain
 from typing import Iterable, Any, Sequence, Mapping, Optional, Union, Iterator
 
 from coba.random import CobaRandom
+from coba.exceptions import CobaException
 from coba.encodings import Encoder
 from coba.utilities import peek_first, try_else
 from coba.primitives import Sparse, Dense, Filter
@@ -398,16 +399,33 @@ class Cache(Filter[Iterable[Any], Iterable[Any]]):
     def filter(self, items: Iterable[Any]) -> Iterable[Any]:
         n_slice = self._n_slice
 
-        if self._iter is None and self._cache is None:
+        if self._cache is None:
             self._iter  = iter(items)
             self._cache = []
 
-        if self._cache is not None and self._iter is None:
-            yield from self._cache
+        cache = self._cache
+
+        if self._iter is None:
+            yield from cache
             return
 
-        yield from self._cache
+        #Several reads can be part way through the cache at the same time. So each read keeps its own
+        #position in the cache and only asks the source for more once it has given out all that is cached.
+        index = 0
+
         while True:
+            if index < len(cache):
+                behind = cache[index:]
+                index  = len(cache)
+                yield from behind
+                continue
+
+            if self._cache is not cache:
+                raise CobaException("The source of a Cache failed while the Cache was being read.")
+
+            if self._iter is None:
+                return
+
             try:
                 current = list(islice(self._iter,n_slice))
             except:
@@ -416,10 +434,13 @@ class Cache(Filter[Iterable[Any], Iterable[Any]]):
                 self._cache = None
                 self._iter  = None
                 raise
-            if not current: break
-            self._cache.extend(current)
-            yield from current
-        self._iter = None
+
+            if current:
+                cache.extend(current)
+                index = len(cache)
+                yield from current
+            else:
+                self._iter = None
 
 class Insert(Filter[Iterable[Any], Iterable[Any]]):
     def __init__(self, insert_items: Sequence[Any]) -> None:
